@@ -8,6 +8,9 @@ CHECKS = {
     "C01": dict(level="exploration", technique="deterministic simulation (seeded clock/event-time search, exact-time delivery ledger + Kepler effect oracle, task-retry fault)",
                 text="seeded search over (start instant, step, event time, event kind, events per step, engines) with real scenarios; exact integer-time oracle for the delivery ledger, independent Kepler solution for the effect of impulses; sampled, not exhaustive",
                 note="trusts python integer/datetime arithmetic; two-body truth for the effect oracle; Julian-date resolution band of 100 us around a boundary accepts either adjacent step for times not exactly on it"),
+    "C02": dict(level="exploration", technique="deterministic simulation (network/geometry configuration search with run-built slew history; independent three-valued geometry oracle at every collectObservations call)",
+                text="full tasking runs over all sensor kinds, hosts, masks, FoVs, slew rates and ranges with targets placed by inverse geometry (azimuth seam, zenith, mask and FoV edges); every collectObservations call is captured (sensor state before the call, pointing, primary and background targets, returned records) and judged by rsim's own geodetic/topocentric geometry, FoV, mask, slew, line-of-sight, radar-equation and optical rules with guard bands",
+                note="trusts the repo's eci2ecef at the exact epoch (C04); low-precision analytic Sun with a 5e-4 rad band; miss reasons other than field of view / masks are rare because the engine only tasks pairs predicted visible"),
     "C03": dict(level="exploration", technique="deterministic simulation (step-size / run-split / start-shift relations, closed-form Kepler reference, batch re-propagation monitor)",
                 text="relations between ways of driving the clock (step dt vs dt/m, one call vs several, start shifted by k steps) on real truth runs, closed-form Kepler and conservation under two-body, per-call batch/bulk consistency monitor; sampled",
                 note="tolerances 1e-4 km / 1e-7 km/s for relations, 1e-3 km for Kepler over <= 1 day; trusts the force model itself (C13)"),
